@@ -188,8 +188,10 @@ EXPORT int _vswprintf_s_chk(wchar_t *restrict dest, rsize_t dmax,
             ret = vswprintf(tmp, 512, fmt, ap2);
         } else {
             wchar_t *tmp = (wchar_t *)malloc(RSIZE_MAX_WSTR * sizeof(wchar_t));
-            if (!tmp)
+            if (unlikely(!tmp)) {
+                handle_werror(dest, dmax, "vswprintf_s: malloc failed", ESNOSPC);
                 return -(ESNOSPC);
+            }
             ret = vswprintf(tmp, RSIZE_MAX_WSTR, fmt, ap2);
             free(tmp);
         }
